@@ -10,6 +10,12 @@ import GM.Proof.QuoteSimInv
 import GM.Proof.QuoteSimInvK
 import GM.Proof.QuoteSimInvPL
 import GM.Proof.QuoteSimList
+import GM.Proof.QuoteSimSetext
+import GM.Proof.QuoteSimFE1
+import GM.Proof.QuoteSimFE2
+import GM.Proof.QuoteSimFE3
+import GM.Proof.QuoteSimFE4
+import GM.Proof.QuoteSimFE5
 
 namespace GM.Blocks
 open GM GM.Text GM.Spec GM.Proof.Reader
@@ -34,6 +40,8 @@ structure AInv (al : BP → Bool) (pc : Ctx) (nodes : List Node) : Prop where
   nk : NK al nodes
   /-- parser/kind consistency of the open blocks (GM.Proof.QuoteSimInvK) -/
   pk : PKL pc.opened nodes
+  /-- all ids stored in the nodes are in range (GM.Proof.QuoteSimFEDefs) -/
+  rg : RStore nodes
 
 /-- the store invariant of GM.Proof.QuoteSimInv, when the List parser is not covered -/
 theorem AInv.us {al : BP → Bool} {pc : Ctx} {nodes : List Node} (h : AInv al pc nodes) (hl : al .list = false) :
@@ -55,6 +63,7 @@ structure PS (src : Bytes) (al : BP → Bool) : Prop where
       (bpContinue bp node sA) (bpContinue bp (node + 1) sB)
   close : ∀ bp, al bp = true → ∀ k ls p node sA sB, SR src k ls p sA sB → node ≠ 0 → AInv al sA.pc sA.nodes →
     ((bp = .paragraph ∨ bp = .setext) → rawK (sA.nodes.getD node default).kind = false) →
+    FEc al sA.nodes sB.nodes →
     S2 (fun _ _ sA' sB' => SR src k ls p sA' sB') (bpClose bp node sA) (bpClose bp (node + 1) sB)
 
 /-- unary facts about run A: the parsers keep `AInv`; `RequireParagraph` is only answered when there is a last
@@ -85,6 +94,10 @@ def NBV (src : Bytes) (ls p : Nat) : Prop := isBlank ((viewA src ls p).getD []) 
 def NoItem (src : Bytes) : Prop :=
   ∀ p, p < src.length → (matchesListItem (sub src p (lineEnd src p)) true).2 = ListTyp.notList
 
+/-- no position of the source starts a rest of line that `matchesSetextHeadingBar` accepts -/
+def NoBar (src : Bytes) : Prop :=
+  ∀ p, p < src.length → ∀ c, matchesSetextHeadingBar (sub src p (lineEnd src p)) ≠ .ok (c, true)
+
 /-- unary facts about run A ("a non-blank line always opens a block"): on a rest of line that is not blank the
     paragraph parser opens a block, and so does the code block parser when the line is indented by more than three
     columns -/
@@ -98,6 +111,9 @@ structure OT (src : Bytes) : Prop where
   /-- … and declines without touching the node store (no list item at the reader's position; no List node to put an item in) -/
   ldecl : ∀ bp, bp.notList = false → NoItem src → ∀ k ls p q sA sB (a : Option Nat × PState) sA', SR src k ls p sA sB →
     UStore sA.nodes → bpOpen bp q sA = .ok (a, sA') → a.1 = none ∧ sA'.nodes = sA.nodes
+  /-- the setext heading parser may be TRIED on sources in which no position starts a setext heading bar: it declines -/
+  sdecl : NoBar src → ∀ k ls p q sA sB (a : Option Nat × PState) sA', SR src k ls p sA sB →
+    bpOpen .setext q sA = .ok (a, sA') → a.1 = none ∧ sA'.nodes = sA.nodes
 
 /-- what run A's `tryParsers` answers: the result it was given or `newBlocksOpened`; and `newBlocksOpened` when it was
     given `noBlocksOpened` on a rest of line that is not blank, the last opened block is no paragraph, and the candidate
@@ -220,13 +236,17 @@ theorem blockAt_q (l : List Block) (i : Int) (b : Block) (h : blockAt l i = .ok 
 
 theorem closeLoop_sim {src al} (ps : PS src al) (fr : Frames al) (l : List Block) (hl : OKB al l) (to : Int) :
     ∀ (n : Nat) {k ls p} {sA sB : St}, SR src k ls p sA sB → AInv al sA.pc sA.nodes → PKL l sA.nodes →
-      S2 (fun _ _ sA' sB' => SR src k ls p sA' sB' ∧ AInv al sA'.pc sA'.nodes ∧ KGn sA.nodes sA'.nodes)
+      FEc al sA.nodes sB.nodes →
+      S2 (fun _ _ sA' sB' => SR src k ls p sA' sB' ∧ AInv al sA'.pc sA'.nodes ∧ KGn sA.nodes sA'.nodes ∧
+          FEc al sA'.nodes sB'.nodes ∧ (al .setext = false → BPn sA.nodes sA'.nodes ∧ BPn sB.nodes sB'.nodes))
         (closeLoop l to n sA) (closeLoop (bqBlock :: l.map shB) (to + 1) n sB) := by
   intro n
   induction n with
-  | zero => intro k ls p sA sB h ha _; unfold closeLoop; exact S2.pure ⟨h, ha, KGn.refl _⟩
+  | zero =>
+    intro k ls p sA sB h ha _ hfe; unfold closeLoop
+    exact S2.pure ⟨h, ha, KGn.refl _, hfe, fun _ => ⟨BPn.refl _, BPn.refl _⟩⟩
   | succ n ih =>
-    intro k ls p sA sB h ha hpk
+    intro k ls p sA sB h ha hpk hfe
     unfold closeLoop
     refine S2.bind (P := fun a b sA' sB' => b = shB a ∧ a ∈ l ∧ sA' = sA ∧ sB' = sB) (S2.liftE (fun a ha => ?_))
       (fun a b sA1 sB1 hq => ?_)
@@ -249,12 +269,19 @@ theorem closeLoop_sim {src al} (ps : PS src al) (fr : Frames al) (l : List Block
       rw [hsome]
       by_cases hs : x.parent.isSome = true
       · rw [if_pos hs, if_pos hs]
-        refine S2.bind (S2.andL (ps.close a.bp hal k ls p a.node sA sB h hn0 ha (fun hbp => hpk.nr hm hbp))
-          (F := fun _ sA' => AInv al sA'.pc sA'.nodes ∧ KGn sA.nodes sA'.nodes)
-          (fun _ sA' e => ⟨fr.close _ _ _ _ _ e hal hn0 ha, fr.closeKG _ _ _ _ _ e hal⟩))
-          (fun _ _ sA3 sB3 h3 => S2.mono (ih h3.1 h3.2.1 (hpk.kg h3.2.2))
-            (fun _ _ _ _ hh => ⟨hh.1, hh.2.1, h3.2.2.trans hh.2.2⟩))
-      · rw [if_neg hs, if_neg hs]; exact ih h ha hpk
+        have hne : al .setext = false → a.bp ≠ .setext := fun hns e => by rw [e, hns] at hal; cases hal
+        refine S2.bind (S2.andR (S2.withFE h hfe (S2.andL (ps.close a.bp hal k ls p a.node sA sB h hn0 ha (fun hbp => hpk.nr hm hbp) hfe)
+          (F := fun _ sA' => AInv al sA'.pc sA'.nodes ∧ KGn sA.nodes sA'.nodes ∧ (al .setext = false → BPn sA.nodes sA'.nodes))
+          (fun _ sA' e => ⟨fr.close _ _ _ _ _ e hal hn0 ha, fr.closeKG _ _ _ _ _ e hal,
+            fun hns => bpn_of_bpClose _ (hne hns) _ e⟩))
+          (fun hns _ sA' e => ⟨bpn_of_bpClose _ (hne hns) _ e, chn_of_bpClose _ (hne hns) _ e⟩)
+          (fun hns _ sB' e => bpn_of_bpClose _ (hne hns) _ e))
+          (G := fun _ sB' => al .setext = false → BPn sB.nodes sB'.nodes)
+          (fun _ sB' e hns => bpn_of_bpClose _ (hne hns) _ e))
+          (fun _ _ sA3 sB3 h3 => S2.mono (ih h3.1.1.1 h3.1.1.2.1 (hpk.kg h3.1.1.2.2.1) h3.1.2)
+            (fun _ _ _ _ hh => ⟨hh.1, hh.2.1, h3.1.1.2.2.1.trans hh.2.2.1, hh.2.2.2.1,
+              fun hns => ⟨(h3.1.1.2.2.2 hns).trans (hh.2.2.2.2 hns).1, (h3.2 hns).trans (hh.2.2.2.2 hns).2⟩⟩))
+      · rw [if_neg hs, if_neg hs]; exact ih h ha hpk hfe
 
 theorem slice'_q (l : List Block) (a b : Int) (x : List Block) (h : closeBlocks.slice' l a b = .ok x) (ha : a = 0) :
     closeBlocks.slice' (bqBlock :: l.map shB) 0 (b + 1) = .ok (bqBlock :: x.map shB) ∧ (∀ y ∈ x, y ∈ l) := by
@@ -286,22 +313,29 @@ theorem slice'_q2 (l : List Block) (a b : Int) (x : List Block) (h : closeBlocks
 structure DR (src : Bytes) (al : BP → Bool) (k ls p : Nat) (sA sB : St) : Prop where
   s : SR src k ls p sA sB
   a : AInv al sA.pc sA.nodes
+  /-- equal flags on every child but the first of every node but the Document, unless the setext parser is covered -/
+  f : FEc al sA.nodes sB.nodes
 
 theorem closeBlocks_tail {src al} {k ls p} {sA0 : St} {sA sB : St} (h3 : SR src k ls p sA sB) (ha : AInv al sA.pc sA.nodes)
+    (hf : FEc al sA.nodes sB.nodes)
     (x : List Block) (hm : ∀ z ∈ x, z ∈ sA0.pc.opened) (hok : OKB al sA0.pc.opened) (hpk0 : PKL sA0.pc.opened sA.nodes) :
-    S2 (fun _ _ sA' sB' => DR src al k ls p sA' sB' ∧ sA'.nodes = sA.nodes)
+    S2 (fun _ _ sA' sB' => DR src al k ls p sA' sB' ∧ sA'.nodes = sA.nodes ∧ sB'.nodes = sB.nodes)
       ((modPc fun pc => { pc with opened := x }) sA) ((modPc fun pc => { pc with opened := bqBlock :: x.map shB }) sB) := by
-  refine S2.mono (S2.andL (modPc_s2 h3 _ _ (fun a b hab => ?_))
+  refine S2.mono (S2.andR (S2.andL (modPc_s2 h3 _ _ (fun a b hab => ?_))
     (F := fun _ sA' => sA' = { sA with pc := { sA.pc with opened := x } })
-    (fun a sA' e => ?_)) (fun _ _ sA' sB' hh => ?_)
+    (fun a sA' e => ?_)) (G := fun _ sB' => sB'.nodes = sB.nodes) (fun b sB' e => ?_)) (fun _ _ sA' sB' hh => ?_)
   · exact { hab with opened := rfl }
   · unfold modPc at e; cases e; rfl
-  · rw [hh.2]
-    exact ⟨⟨by rw [← hh.2]; exact hh.1, fun z hz => hok z (hm z hz), ha.tmp, ha.fence, ha.u, ha.nk, hpk0.sub hm⟩, rfl⟩
+  · unfold modPc at e; cases e; rfl
+  · obtain ⟨⟨hh1, hh2⟩, hh3⟩ := hh
+    subst hh2
+    exact ⟨⟨hh1, ⟨fun z hz => hok z (hm z hz), ha.tmp, ha.fence, ha.u, ha.nk, hpk0.sub hm, ha.rg⟩,
+      by rw [hh3]; exact hf⟩, rfl, hh3⟩
 
 theorem closeBlocks_sim {src al} (ps : PS src al) (fr : Frames al) {k ls p} {sA sB : St} (h : DR src al k ls p sA sB)
     (frm to : Int) :
-    S2 (fun _ _ sA' sB' => DR src al k ls p sA' sB' ∧ KGn sA.nodes sA'.nodes)
+    S2 (fun _ _ sA' sB' => DR src al k ls p sA' sB' ∧ KGn sA.nodes sA'.nodes ∧
+        (al .setext = false → BPn sA.nodes sA'.nodes ∧ BPn sB.nodes sB'.nodes))
       (closeBlocks frm to sA) (closeBlocks (frm + 1) (to + 1) sB) := by
   unfold closeBlocks
   refine S2.bind (getPc_s2 h.s) (fun a b sA1 sB1 hq => ?_)
@@ -311,8 +345,8 @@ theorem closeBlocks_sim {src al} (ps : PS src al) (fr : Frames al) {k ls p} {sA 
   simp only
   rw [hc.opened]
   rw [show frm + 1 - (to + 1) + 1 = frm - to + 1 by omega]
-  refine S2.bind (closeLoop_sim ps fr sA.pc.opened h.a.opened to _ h.s h.a h.a.pk) (fun _ _ sA2 sB2 hq => ?_)
-  obtain ⟨h2, ha2, hkg2⟩ := hq
+  refine S2.bind (closeLoop_sim ps fr sA.pc.opened h.a.opened to _ h.s h.a h.a.pk h.f) (fun _ _ sA2 sB2 hq => ?_)
+  obtain ⟨h2, ha2, hkg2, hx2⟩ := hq
   have e0 : (((bqBlock :: sA.pc.opened.map shB).length : Nat) : Int) = (sA.pc.opened.length : Int) + 1 := by
     simp only [List.length_cons, List.length_map]; omega
   rw [e0]
@@ -322,34 +356,44 @@ theorem closeBlocks_sim {src al} (ps : PS src al) (fr : Frames al) {k ls p} {sA 
   by_cases hf : (frm == (sA.pc.opened.length : Int) - 1) = true
   · rw [if_pos hf, if_pos hf]
     refine S2.bind (P := fun x y sA' sB' => y = bqBlock :: x.map shB ∧ (∀ z ∈ x, z ∈ sA.pc.opened) ∧
-      SR src k ls p sA' sB' ∧ AInv al sA'.pc sA'.nodes ∧ KGn sA.nodes sA'.nodes) (S2.liftE (fun x hx => ?_)) (fun x y sA3 sB3 hq => ?_)
+      SR src k ls p sA' sB' ∧ AInv al sA'.pc sA'.nodes ∧ KGn sA.nodes sA'.nodes ∧
+      FEc al sA'.nodes sB'.nodes ∧ (al .setext = false → BPn sA.nodes sA'.nodes ∧ BPn sB.nodes sB'.nodes))
+      (S2.liftE (fun x hx => ?_)) (fun x y sA3 sB3 hq => ?_)
     · obtain ⟨e, hm⟩ := slice'_q _ _ _ x hx rfl
-      exact ⟨_, e, rfl, hm, h2, ha2, hkg2⟩
-    · obtain ⟨hy, hm, h3, ha3, hkg3⟩ := hq
+      exact ⟨_, e, rfl, hm, h2, ha2, hkg2, hx2⟩
+    · obtain ⟨hy, hm, h3, ha3, hkg3, hx3⟩ := hq
       subst hy
-      exact S2.mono (closeBlocks_tail h3 ha3 x hm h.a.opened (h.a.pk.kg hkg3)) (fun _ _ _ _ hh => ⟨hh.1, by rw [hh.2]; exact hkg3⟩)
+      exact S2.mono (closeBlocks_tail h3 ha3 hx3.1 x hm h.a.opened (h.a.pk.kg hkg3))
+        (fun _ _ _ _ hh => ⟨hh.1, by rw [hh.2.1]; exact hkg3, fun hns => by rw [hh.2.1, hh.2.2]; exact hx3.2 hns⟩)
   · rw [if_neg hf, if_neg hf]
     refine S2.bind (P := fun x y sA' sB' => y = bqBlock :: x.map shB ∧ (∀ z ∈ x, z ∈ sA.pc.opened) ∧
-        SR src k ls p sA' sB' ∧ AInv al sA'.pc sA'.nodes ∧ KGn sA.nodes sA'.nodes) (S2.liftE (fun x hx => ?_)) (fun x y sA3 sB3 hq => ?_)
+        SR src k ls p sA' sB' ∧ AInv al sA'.pc sA'.nodes ∧ KGn sA.nodes sA'.nodes ∧
+        FEc al sA'.nodes sB'.nodes ∧ (al .setext = false → BPn sA.nodes sA'.nodes ∧ BPn sB.nodes sB'.nodes))
+      (S2.liftE (fun x hx => ?_)) (fun x y sA3 sB3 hq => ?_)
     · obtain ⟨e, hm⟩ := slice'_q _ _ _ x hx rfl
-      exact ⟨_, e, rfl, hm, h2, ha2, hkg2⟩
-    · obtain ⟨hy, hm, h3, ha3, hkg3⟩ := hq
+      exact ⟨_, e, rfl, hm, h2, ha2, hkg2, hx2⟩
+    · obtain ⟨hy, hm, h3, ha3, hkg3, hx3⟩ := hq
       subst hy
       refine S2.bind (P := fun x' y' sA' sB' => y' = x'.map shB ∧ (∀ z ∈ x', z ∈ sA.pc.opened) ∧
-          SR src k ls p sA' sB' ∧ AInv al sA'.pc sA'.nodes ∧ KGn sA.nodes sA'.nodes) (S2.liftE (fun x' hx' => ?_)) (fun x' y' sA4 sB4 hq => ?_)
+          SR src k ls p sA' sB' ∧ AInv al sA'.pc sA'.nodes ∧ KGn sA.nodes sA'.nodes ∧
+          FEc al sA'.nodes sB'.nodes ∧ (al .setext = false → BPn sA.nodes sA'.nodes ∧ BPn sB.nodes sB'.nodes))
+        (S2.liftE (fun x' hx' => ?_)) (fun x' y' sA4 sB4 hq => ?_)
       · rw [show frm + 1 + 1 = (frm + 1) + 1 by rfl]
         obtain ⟨e, hm'⟩ := slice'_q2 _ _ _ x' hx'
-        exact ⟨_, e, rfl, hm', h3, ha3, hkg3⟩
-      · obtain ⟨hy', hm', h4, ha4, hkg4⟩ := hq
+        exact ⟨_, e, rfl, hm', h3, ha3, hkg3, hx3⟩
+      · obtain ⟨hy', hm', h4, ha4, hkg4, hx4⟩ := hq
         subst hy'
         refine S2.bind (P := fun x'' y'' sA' sB' => y'' = bqBlock :: x''.map shB ∧ (∀ z ∈ x'', z ∈ sA.pc.opened) ∧
-          SR src k ls p sA' sB' ∧ AInv al sA'.pc sA'.nodes ∧ KGn sA.nodes sA'.nodes) (S2.pure ⟨by simp, fun z hz => ?_, h4, ha4, hkg4⟩) (fun x'' y'' sA5 sB5 hq => ?_)
+          SR src k ls p sA' sB' ∧ AInv al sA'.pc sA'.nodes ∧ KGn sA.nodes sA'.nodes ∧
+          FEc al sA'.nodes sB'.nodes ∧ (al .setext = false → BPn sA.nodes sA'.nodes ∧ BPn sB.nodes sB'.nodes))
+          (S2.pure ⟨by simp, fun z hz => ?_, h4, ha4, hkg4, hx4⟩) (fun x'' y'' sA5 sB5 hq => ?_)
         · rcases List.mem_append.mp hz with hz | hz
           · exact hm z hz
           · exact hm' z hz
-        · obtain ⟨hy'', hm'', h5, ha5, hkg5⟩ := hq
+        · obtain ⟨hy'', hm'', h5, ha5, hkg5, hx5⟩ := hq
           subst hy''
-          exact S2.mono (closeBlocks_tail h5 ha5 x'' hm'' h.a.opened (h.a.pk.kg hkg5)) (fun _ _ _ _ hh => ⟨hh.1, by rw [hh.2]; exact hkg5⟩)
+          exact S2.mono (closeBlocks_tail h5 ha5 hx5.1 x'' hm'' h.a.opened (h.a.pk.kg hkg5))
+            (fun _ _ _ _ hh => ⟨hh.1, by rw [hh.2.1]; exact hkg5, fun hns => by rw [hh.2.1, hh.2.2]; exact hx5.2 hns⟩)
 
 /-! ### openBlocks: the loop over the candidate parsers -/
 
@@ -400,33 +444,52 @@ def tpTail2 (q node : Nat) (bp : BP) (state : PState) (lastBlock : Option Block)
 
 theorem tpTail2_sim {src al} {cont : Bool} {k ls p} {sA sB : St} (h : DR src al k ls p sA sB) (q node : Nat) (hn0 : node ≠ 0)
     (bp : BP) (hal : al bp = true) (state : PState) {lbA lbB : Option Block} (hl : LR al lbA lbB)
-    (hnew : NRn bp node sA.nodes) :
-    S2 (fun a b sA' sB' => (TryRel al cont a b ∧ a.2.1 = .newBlocksOpened ∧ b.2.1 = .newBlocksOpened) ∧ DR src al k ls p sA' sB')
+    (hnew : NRn bp node sA.nodes) (hq : q < sA.nodes.length) (hun : Unref node sA.nodes) (hqn : q ≠ node)
+    (hap : al .setext = false → (FlagEqAt sA.nodes sB.nodes node ∨ q = 0 ∨ QE q sA)) :
+    S2 (fun a b sA' sB' => (TryRel al cont a b ∧ a.2.1 = .newBlocksOpened ∧ b.2.1 = .newBlocksOpened) ∧ DR src al k ls p sA' sB' ∧
+        (∀ qa, a.1 = .retry qa → qa < sA'.nodes.length ∧ QE qa sA') ∧ sA.nodes.length ≤ sA'.nodes.length)
       (tpTail2 q node bp state lbA sA) (tpTail2 (q + 1) (node + 1) bp state lbB sB) := by
   unfold tpTail2
-  refine S2.bind (S2.andL (appendChild_s2 h.s q node hn0)
-    (F := fun _ sA' => sA'.pc = sA.pc ∧ UStoreL sA'.nodes ∧ NK al sA'.nodes ∧ KGn sA.nodes sA'.nodes)
+  refine S2.bind (S2.andR (S2.andL (appendChild_s2 h.s q node hn0)
+    (F := fun _ sA' => sA'.pc = sA.pc ∧ UStoreL sA'.nodes ∧ NK al sA'.nodes ∧ KGn sA.nodes sA'.nodes ∧
+      RStore sA'.nodes ∧ BPn sA.nodes sA'.nodes ∧ CHA q node sA.nodes sA'.nodes ∧ QE node sA')
     (fun a sA' e => ⟨appendChild_pck q node sA a sA' e, usL_appendChild q node hn0 sA a sA' h.a.u e,
       (fun hl0 n hn => ((us_appendChild q node hn0 sA a sA' (h.a.us hl0) e).node n hn).kind),
-      kgn_of_keeps (fun n0 => kg_appendChild n0 q node) e⟩)) (fun _ _ sA1 sB1 hq => ?_)
-  obtain ⟨h1, hpc1, hu1, hnk1, hkg1⟩ := hq
-  refine S2.bind (S2.andL (modPc_s2 h1 _ _ (fun a b hab => ?_))
+      kgn_of_keeps (fun n0 => kg_appendChild n0 q node) e,
+      rs_appendChild q node h.a.rg hq hun.1 e, bpn_appendChild q node e, cha_appendChild q node e,
+      qe_appendChild node q node hqn sA a sA' (qe_of_unref hun) e⟩))
+    (G := fun _ sB' => BPs sB.nodes sB'.nodes) (fun _ sB' e => (bps_appendChild _ _ e).1)) (fun _ _ sA1 sB1 hq' => ?_)
+  obtain ⟨⟨h1, hpc1, hu1, hnk1, hkg1, hrg1, hbp1, hcha1, hqe1⟩, hbB1⟩ := hq'
+  have hf1 : FEc al sA1.nodes sB1.nodes := fun hns => fe_append (h.f hns) (bps_of_bpn hbp1) hbB1 hcha1 (hap hns)
+  refine S2.bind (S2.andR (S2.andL (modPc_s2 h1 _ _ (fun a b hab => ?_))
     (F := fun _ sA' => sA' = { sA1 with pc := { sA1.pc with opened := sA1.pc.opened ++ [{ node := node, bp := bp }] } })
-    (fun a sA' e => ?_)) (fun _ _ sA2 sB2 hq => ?_)
+    (fun a sA' e => ?_)) (G := fun _ sB' => sB'.nodes = sB1.nodes) (fun _ sB' e => by unfold modPc at e; cases e; rfl))
+    (fun _ _ sA2 sB2 hq' => ?_)
   · exact { hab with opened := by simp [hab.opened, shB] }
   · unfold modPc at e; cases e; rfl
-  · obtain ⟨h2, hpc2⟩ := hq
+  · obtain ⟨⟨h2, hpc2⟩, hnB2⟩ := hq'
+    have hn2 : sA2.nodes = sA1.nodes := by rw [hpc2]
     have ha2 : AInv al sA2.pc sA2.nodes := by
       rw [hpc2]
       simp only
       rw [hpc1]
-      refine ⟨fun z hz => ?_, h.a.tmp, h.a.fence, hu1, hnk1, (h.a.pk.kg hkg1).push (hnew.kg hkg1)⟩
+      refine ⟨fun z hz => ?_, h.a.tmp, h.a.fence, hu1, hnk1, (h.a.pk.kg hkg1).push (hnew.kg hkg1), hrg1⟩
       rcases List.mem_append.mp hz with hz | hz
       · exact h.a.opened z hz
       · simp only [List.mem_singleton] at hz; subst hz; exact ⟨hal, hn0⟩
+    have hd2 : DR src al k ls p sA2 sB2 := ⟨h2, ha2, by rw [hn2, hnB2]; exact hf1⟩
+    have hlt2 : node < sA2.nodes.length := by rw [hn2]; exact Nat.lt_of_lt_of_le hun.1 hbp1.1
+    have hqe2 : QE node sA2 := by
+      show (sA2.nodes.getD node default).children = []
+      rw [hn2]; exact hqe1
+    have hlen : sA.nodes.length ≤ sA2.nodes.length := by rw [hn2]; exact hbp1.1
     by_cases hc : state.hasChildren = true
-    · rw [if_pos hc, if_pos hc]; exact S2.pure ⟨⟨⟨rfl, .inl rfl, .inr hl, fun _ => ⟨rfl, rfl⟩⟩, rfl, rfl⟩, h2, ha2⟩
-    · rw [if_neg hc, if_neg hc]; exact S2.pure ⟨⟨⟨trivial, .inl rfl, .inr hl, fun _ => ⟨rfl, rfl⟩⟩, rfl, rfl⟩, h2, ha2⟩
+    · rw [if_pos hc, if_pos hc]
+      exact S2.pure ⟨⟨⟨rfl, .inl rfl, .inr hl, fun _ => ⟨rfl, rfl⟩⟩, rfl, rfl⟩, hd2,
+        fun qa e => by cases e; exact ⟨hlt2, hqe2⟩, hlen⟩
+    · rw [if_neg hc, if_neg hc]
+      exact S2.pure ⟨⟨⟨trivial, .inl rfl, .inr hl, fun _ => ⟨rfl, rfl⟩⟩, rfl, rfl⟩, hd2,
+        fun qa e => (by cases e), hlen⟩
 
 /-- parser.go:1001-1007: the blank flag, closing a detached last block -/
 def tpTail1 (b : Bool) (q node : Nat) (bp : BP) (state : PState) (lastBlock : Option Block) :
@@ -444,22 +507,51 @@ def tpTail1 (b : Bool) (q node : Nat) (bp : BP) (state : PState) (lastBlock : Op
 
 theorem tpTail1_sim {src al} {cont : Bool} (ps : PS src al) (fr : Frames al) {k ls p} {sA sB : St} (h : DR src al k ls p sA sB)
     (bA bB : Bool) (hbf : FL src → bB = bA) (q node : Nat) (hn0 : node ≠ 0) (bp : BP) (hal : al bp = true) (state : PState)
-    {lbA lbB : Option Block} (hl : LR al lbA lbB) (hnew : NRn bp node sA.nodes) :
-    S2 (fun a b sA' sB' => (TryRel al cont a b ∧ a.2.1 = .newBlocksOpened ∧ b.2.1 = .newBlocksOpened) ∧ DR src al k ls p sA' sB')
+    {lbA lbB : Option Block} (hl : LR al lbA lbB) (hnew : NRn bp node sA.nodes)
+    (hq : q < sA.nodes.length) (hun : Unref node sA.nodes) (hqn : q ≠ node)
+    (hbq : al .setext = false → (bB = bA ∨ q = 0 ∨ QE q sA)) :
+    S2 (fun a b sA' sB' => (TryRel al cont a b ∧ a.2.1 = .newBlocksOpened ∧ b.2.1 = .newBlocksOpened) ∧ DR src al k ls p sA' sB' ∧
+        (∀ qa, a.1 = .retry qa → qa < sA'.nodes.length ∧ QE qa sA') ∧ sA.nodes.length ≤ sA'.nodes.length)
       (tpTail1 bA q node bp state lbA sA) (tpTail1 bB (q + 1) (node + 1) bp state lbB sB) := by
   unfold tpTail1
-  refine S2.bind (S2.andL (modNode_s2 h.s node _ _ (fun a b hab => ?_))
-    (F := fun _ sA' => sA'.pc = sA.pc ∧ UStoreL sA'.nodes ∧ NK al sA'.nodes ∧ KGn sA.nodes sA'.nodes)
+  have hltB : node + 1 < sB.nodes.length := by
+    have := h.s.n.len; have := hun.1; omega
+  refine S2.bind (S2.andR (S2.andL (modNode_s2 h.s node _ _ (fun a b hab => ?_))
+    (F := fun _ sA' => sA'.pc = sA.pc ∧ UStoreL sA'.nodes ∧ NK al sA'.nodes ∧ KGn sA.nodes sA'.nodes ∧
+      RSU node sA' ∧ MF node bA sA.nodes sA'.nodes ∧ (QE q sA → QE q sA') ∧ sA'.nodes.length = sA.nodes.length)
     (fun a sA' e => ⟨modNode_pck _ _ sA a sA' e,
       usL_modNode node (fun n => { n with blankPrev := bA }) (fun n hn => ⟨hn.kids⟩) (fun _ _ => rfl) sA a sA' h.a.u e,
       (fun hl0 n hn => ((us_modNode node (fun n => { n with blankPrev := bA }) (fun n hn => ⟨hn.kind, hn.kids⟩) (fun _ _ => rfl)
         sA a sA' (h.a.us hl0) e).node n hn).kind),
-      kgn_of_keeps (fun n0 => kgi_modNode n0 node (fun n => { n with blankPrev := bA }) (fun _ => rfl)) e⟩)) (fun _ _ sA1 sB1 hq => ?_)
+      kgn_of_keeps (fun n0 => kgi_modNode n0 node (fun n => { n with blankPrev := bA }) (fun _ => rfl)) e,
+      rsu_modNode node node (fun n => { n with blankPrev := bA }) (fun _ => ⟨rfl, rfl⟩) sA a sA' ⟨h.a.rg, hun⟩ e,
+      mf_modNode node bA hun.1 e,
+      (fun hqe => qe_modNode q node (fun n => { n with blankPrev := bA }) (fun _ _ hn => hn) sA a sA' hqe e),
+      modNode_len e⟩))
+    (G := fun _ sB' => MF (node + 1) bB sB.nodes sB'.nodes) (fun _ sB' e => mf_modNode (node + 1) bB hltB e))
+    (fun _ _ sA1 sB1 hq' => ?_)
   · exact { hab with blank := (fun hfl _ => hbf hfl) }
-  obtain ⟨h1, hpc1, hu1, hnk1, hkg1⟩ := hq
+  obtain ⟨⟨h1, hpc1, hu1, hnk1, hkg1, hrsu1, hmfA, hqe1, hlen1⟩, hmfB⟩ := hq'
+  have hf1 : FEc al sA1.nodes sB1.nodes :=
+    fun hns => fe_setFlag (h.f hns) hmfA hmfB (.inr (fun q' => unref_not_child hun q'))
   have hd1 : DR src al k ls p sA1 sB1 :=
-    ⟨h1, by rw [hpc1]; exact ⟨h.a.opened, h.a.tmp, h.a.fence, hu1, hnk1, h.a.pk.kg hkg1⟩⟩
+    ⟨h1, by rw [hpc1]; exact ⟨h.a.opened, h.a.tmp, h.a.fence, hu1, hnk1, h.a.pk.kg hkg1, hrsu1.1⟩, hf1⟩
   have hnew1 : NRn bp node sA1.nodes := hnew.kg hkg1
+  have hq1 : q < sA1.nodes.length := by rw [hlen1]; exact hq
+  have hun1 : Unref node sA1.nodes := hrsu1.2
+  have hap1 : al .setext = false → (FlagEqAt sA1.nodes sB1.nodes node ∨ q = 0 ∨ QE q sA1) := fun hns => by
+    rcases hbq hns with e | e | e
+    · refine .inl ?_
+      show (sB1.nodes.getD (node + 1) default).blankPrev = (sA1.nodes.getD node default).blankPrev
+      rw [hmfA.2.2, hmfB.2.2, e]
+    · exact .inr (.inl e)
+    · exact .inr (.inr (hqe1 e))
+  have fin : ∀ {a b : TryOutcome × OpenResult × Option Block} {sA' sB' : St},
+      ((TryRel al cont a b ∧ a.2.1 = .newBlocksOpened ∧ b.2.1 = .newBlocksOpened) ∧ DR src al k ls p sA' sB' ∧
+        (∀ qa, a.1 = .retry qa → qa < sA'.nodes.length ∧ QE qa sA') ∧ sA1.nodes.length ≤ sA'.nodes.length) →
+      ((TryRel al cont a b ∧ a.2.1 = .newBlocksOpened ∧ b.2.1 = .newBlocksOpened) ∧ DR src al k ls p sA' sB' ∧
+        (∀ qa, a.1 = .retry qa → qa < sA'.nodes.length ∧ QE qa sA') ∧ sA.nodes.length ≤ sA'.nodes.length) :=
+    fun hh => ⟨hh.1, hh.2.1, hh.2.2.1, by rw [← hlen1]; exact hh.2.2.2⟩
   rcases hl.rel with ⟨e1, e2⟩ | ⟨x, e1, e2⟩
   · subst e1 e2
     simp only [Option.map_none, Option.map_some, bqBlock]
@@ -475,7 +567,7 @@ theorem tpTail1_sim {src al} {cont : Bool} (ps : PS src al) (fr : Frames al) {k 
       rw [this]; rfl
     rw [hnone]
     simp only [Bool.false_eq_true, if_false]
-    exact tpTail2_sim hd1 q node hn0 bp hal state hl hnew1
+    exact S2.mono (tpTail2_sim hd1 q node hn0 bp hal state hl hnew1 hq1 hun1 hqn hap1) (fun _ _ _ _ hh => fin hh)
   · subst e1 e2
     obtain ⟨_, hx0⟩ := hl.ok x rfl
     simp only [Option.map_some, shB]
@@ -497,10 +589,29 @@ theorem tpTail1_sim {src al} {cont : Bool} (ps : PS src al) (fr : Frames al) {k 
       have elen : ((sB1.pc.opened.length : Nat) : Int) - 1 = ((sA1.pc.opened.length : Int) - 1) + 1 := by
         rw [hcr.opened]; simp only [List.length_cons, List.length_map]; omega
       rw [elen]
-      refine S2.bind (closeBlocks_sim ps fr hd1 _ _) (fun _ _ sA4 sB4 h4 => ?_)
-      exact tpTail2_sim h4.1 q node hn0 bp hal state hl (hnew1.kg h4.2)
+      have hnos : al .setext = false → ∀ b ∈ sA1.pc.opened, b.bp ≠ .setext := fun hns b hb e => by
+        have := (h.a.opened b (hpc1 ▸ hb)).1
+        rw [e, hns] at this; cases this
+      refine S2.bind (S2.andL (closeBlocks_sim ps fr hd1 _ _)
+        (F := fun _ sA' => Unref node sA'.nodes ∧ (al .setext = false → QE q sA1 → QE q sA'))
+        (fun _ sA' e => ⟨(rsu_closeBlocks node _ _ sA1 _ sA' hrsu1 e).2,
+          fun hns hqe => qe_closeBlocks q _ _ (hnos hns) hqe e⟩)) (fun _ _ sA4 sB4 h4 => ?_)
+      obtain ⟨⟨hd4, hkg4, hbp4⟩, hun4, hqe4⟩ := h4
+      have hap4 : al .setext = false → (FlagEqAt sA4.nodes sB4.nodes node ∨ q = 0 ∨ QE q sA4) := fun hns => by
+        rcases hap1 hns with e | e | e
+        · refine .inl ?_
+          show (sB4.nodes.getD (node + 1) default).blankPrev = (sA4.nodes.getD node default).blankPrev
+          have hltB1 : node + 1 < sB1.nodes.length := by
+            have := h1.n.len; have := hun1.1; omega
+          rw [(hbp4 hns).1.2.1 node hun1.1, (hbp4 hns).2.2.1 (node + 1) hltB1]
+          exact e
+        · exact .inr (.inl e)
+        · exact .inr (.inr (hqe4 hns e))
+      exact S2.mono (tpTail2_sim hd4 q node hn0 bp hal state hl (hnew1.kg hkg4)
+          (Nat.lt_of_lt_of_le hq1 hkg4.1) hun4 hqn hap4)
+        (fun _ _ _ _ hh => fin ⟨hh.1, hh.2.1, hh.2.2.1, Nat.le_trans hkg4.1 hh.2.2.2⟩)
     · rw [if_neg hcn, if_neg hcn]
-      exact tpTail2_sim hd1 q node hn0 bp hal state hl hnew1
+      exact S2.mono (tpTail2_sim hd1 q node hn0 bp hal state hl hnew1 hq1 hun1 hqn hap1) (fun _ _ _ _ hh => fin hh)
 
 theorem nat_beq_congr {a b c d : Nat} (h : a = b ↔ c = d) : (a == b) = (c == d) := by
   by_cases h1 : a = b
@@ -532,23 +643,26 @@ def tpReqJp (b : Bool) (q node : Nat) (bp : BP) (state : PState) (lastBlock : Op
 theorem tpReqJp_sim {src al} {cont : Bool} (ps : PS src al) (fr : Frames al) {k ls p} {sA sB : St} (h : DR src al k ls p sA sB)
     (bA bB : Bool) (hbf : FL src → bB = bA) (q node : Nat) (hn0 : node ≠ 0) (bp : BP) (hal : al bp = true) (state : PState)
     {lbA lbB : Option Block} (hl : LR al lbA lbB) (blocks : List Block) (hb : blocks ≠ []) (hbo : OKB al blocks)
-    (lb : Block) (hlb : lb.node ≠ 0) (hnew : NRn bp node sA.nodes) (hbpk : PKL blocks sA.nodes) :
-    S2 (fun a b sA' sB' => (TryRel al cont a b ∧ a.2.1 = .newBlocksOpened ∧ b.2.1 = .newBlocksOpened) ∧ DR src al k ls p sA' sB')
+    (lb : Block) (hlb : lb.node ≠ 0) (hnew : NRn bp node sA.nodes) (hbpk : PKL blocks sA.nodes)
+    (hq : q < sA.nodes.length) (hun : Unref node sA.nodes) (hqn : q ≠ node)
+    (hbq : al .setext = false → (bB = bA ∨ q = 0 ∨ QE q sA)) :
+    S2 (fun a b sA' sB' => (TryRel al cont a b ∧ a.2.1 = .newBlocksOpened ∧ b.2.1 = .newBlocksOpened) ∧ DR src al k ls p sA' sB' ∧
+        (∀ qa, a.1 = .retry qa → qa < sA'.nodes.length ∧ QE qa sA') ∧ sA.nodes.length ≤ sA'.nodes.length)
       (tpReqJp bA q node bp state lbA blocks lb sA)
       (tpReqJp bB (q + 1) (node + 1) bp state lbB (bqBlock :: blocks.map shB) (shB lb) sB) := by
   unfold tpReqJp
-  refine S2.bind (S2.andL (modPc_s2 h.s _ _ (fun a b hab => ?_))
+  refine S2.bind (S2.andR (S2.andL (modPc_s2 h.s _ _ (fun a b hab => ?_))
     (F := fun _ sA' => sA' = { sA with pc := { sA.pc with opened := blocks.dropLast } })
-    (fun a sA' e => ?_)) (fun _ _ sA2 sB2 hq => ?_)
+    (fun a sA' e => ?_)) (G := fun _ sB' => sB'.nodes = sB.nodes) (fun _ sB' e => by unfold modPc at e; cases e; rfl))
+    (fun _ _ sA2 sB2 hq' => ?_)
   · exact { hab with opened := dropLast_q blocks hb }
   · unfold modPc at e; cases e; rfl
-  · obtain ⟨h2, hpc2⟩ := hq
-    have hd2 : DR src al k ls p sA2 sB2 := by
-      refine ⟨h2, ?_⟩
-      rw [hpc2]
+  · obtain ⟨⟨h2, hpc2⟩, hnB2⟩ := hq'
+    subst hpc2
+    have hd2 : DR src al k ls p { sA with pc := { sA.pc with opened := blocks.dropLast } } sB2 := by
+      refine ⟨h2, ?_, by rw [hnB2]; exact h.f⟩
       exact ⟨fun z hz => hbo z (List.dropLast_subset _ hz), h.a.tmp, h.a.fence, h.a.u, h.a.nk,
-        hbpk.sub (fun z hz => List.dropLast_subset _ hz)⟩
-    have hnew2 : NRn bp node sA2.nodes := by rw [hpc2]; exact hnew
+        hbpk.sub (fun z hz => List.dropLast_subset _ hz), h.a.rg⟩
     simp only [shB]
     refine S2.bind (getNode_s2' h2 lb.node) (fun a b sA3 sB3 hq => ?_)
     obtain ⟨hab, e1, e2⟩ := hq
@@ -562,40 +676,43 @@ theorem tpReqJp_sim {src al} {cont : Bool} (ps : PS src al) (fr : Frames al) {k 
     · rw [if_pos hkp, if_pos hkp]
       exact S2.errL (throw_bind_err _ _ _)
     · rw [if_neg hkp, if_neg hkp]
-      exact tpTail1_sim ps fr hd2 bA bB hbf q node hn0 bp hal state hl hnew2
+      exact tpTail1_sim ps fr hd2 bA bB hbf q node hn0 bp hal state hl hnew hq hun hqn hbq
 
 theorem tryParsers_sim {src al} (ps : PS src al) (fr : Frames al) (ot : OT src) (bA bB cont : Bool) (hbf : FL src → bB = bA)
     (w : Int) (q : Nat) :
-    ∀ (bps : List BP), (∀ bp ∈ bps, al bp = true ∨ (bp.notList = false ∧ al .list = false ∧ NoItem src)) → ∀ (result resultB : OpenResult) (lbA lbB : Option Block)
+    ∀ (bps : List BP), (∀ bp ∈ bps, al bp = true ∨ (bp.notList = false ∧ al .list = false ∧ NoItem src) ∨
+        (bp = .setext ∧ al .setext = false ∧ NoBar src)) → ∀ (result resultB : OpenResult) (lbA lbB : Option Block)
       {k ls p : Nat} {sA sB : St}, DR src al k ls p sA sB → LRw al lbA lbB → RRes cont result resultB →
-      HC cont result lbA sA →
+      HC cont result lbA sA → q < sA.nodes.length → (al .setext = false → (bB = bA ∨ q = 0 ∨ QE q sA)) →
       S2 (fun a b sA' sB' => TryRel al cont a b ∧ (resultB = result → b.2.1 = a.2.1) ∧ (∃ p', DR src al k ls p' sA' sB') ∧
-          TPU src ls p cont w bps result a.2.1 ∧ HC cont a.2.1 a.2.2 sA')
+          TPU src ls p cont w bps result a.2.1 ∧ HC cont a.2.1 a.2.2 sA' ∧
+          (∀ qa, a.1 = .retry qa → qa < sA'.nodes.length ∧ QE qa sA') ∧ sA.nodes.length ≤ sA'.nodes.length)
         (tryParsers q bA cont w bps result lbA sA) (tryParsers (q + 1) bB cont w bps resultB lbB sB) := by
   intro bps
   induction bps with
   | nil =>
-    intro _ result resultB lbA lbB k ls p sA sB h hl hres hcl
+    intro _ result resultB lbA lbB k ls p sA sB h hl hres hcl hq hbq
     unfold tryParsers
-    refine S2.pure ⟨⟨trivial, hres, hl, fun hh => absurd rfl hh⟩, fun e => e, ⟨p, h⟩, ⟨.inl rfl, ?_⟩, hcl⟩
+    refine S2.pure ⟨⟨trivial, hres, hl, fun hh => absurd rfl hh⟩, fun e => e, ⟨p, h⟩, ⟨.inl rfl, ?_⟩, hcl,
+      fun qa e => (by cases e), Nat.le_refl _⟩
     intro _ _ _ h1 h2
     by_cases hw : w ≤ 3
     · exact absurd (h1 hw) (by simp)
     · exact absurd (h2 (by omega)).1 (by simp)
   | cons bp bps ih =>
-    intro hbps result resultB lbA lbB k ls p sA sB h hl hres hcl
+    intro hbps result resultB lbA lbB k ls p sA sB h hl hres hcl hq hbq
     have ih' := ih (fun b hb => hbps b (by simp [hb]))
     unfold tryParsers
     rw [hres.cond]
     by_cases hs1 : (cont && result == OpenResult.noBlocksOpened && !bp.canInterruptParagraph) = true
     · rw [if_pos hs1, if_pos hs1]
-      refine S2.mono (ih' result resultB lbA lbB h hl hres hcl)
+      refine S2.mono (ih' result resultB lbA lbB h hl hres hcl hq hbq)
         (fun _ _ _ _ hh => ⟨hh.1, hh.2.1, hh.2.2.1, ⟨hh.2.2.2.1.1, ?_⟩, hh.2.2.2.2⟩)
       intro hc; rw [hc] at hs1; simp at hs1
     rw [if_neg hs1, if_neg hs1]
     by_cases hs2 : (decide (w > 3) && !bp.canAcceptIndentedLine) = true
     · rw [if_pos hs2, if_pos hs2]
-      refine S2.mono (ih' result resultB lbA lbB h hl hres hcl)
+      refine S2.mono (ih' result resultB lbA lbB h hl hres hcl hq hbq)
         (fun _ _ _ _ hh => ⟨hh.1, hh.2.1, hh.2.2.1, ⟨hh.2.2.2.1.1, ?_⟩, hh.2.2.2.2⟩)
       intro hc hr hnb h1 h2
       simp only [Bool.and_eq_true, decide_eq_true_eq, Bool.not_eq_true'] at hs2
@@ -618,7 +735,7 @@ theorem tryParsers_sim {src al} (ps : PS src al) (fr : Frames al) (ot : OT src) 
         (∀ id, a.1 = some id → NRn bp id sA'.nodes) ∧ KGn sA.nodes sA'.nodes ∧ sA'.pc.opened = sA.pc.opened ∧
         (a.1 ≠ none → al bp = true)))
         (bpOpen bp q sA) (bpOpen bp (q + 1) sB) := by
-      rcases hbps bp (by simp) with hal | hnl
+      rcases hbps bp (by simp) with hal | hnl | hst
       · exact S2.andL (ps.open_ bp hal k ls p q sA sB h.s)
           (fun a sA' e => ⟨fr.open_ _ _ _ _ _ e hal h.a, fr.req _ _ _ _ _ e, fr.nonePos _ _ _ _ _ e, (fun hnb =>
             ⟨fun hbp => by subst hbp; exact ot.para k ls p q sA sB a sA' h.s hnb e,
@@ -630,17 +747,37 @@ theorem tryParsers_sim {src al} (ps : PS src al) (fr : Frames al) (ot : OT src) 
         obtain ⟨hn1, hn2⟩ := ot.ldecl bp hnl hnoi k ls p q sA sB a sA' h.s (h.a.us hl0) e
         have ho := bpOpen_opened _ _ _ _ _ e
         refine ⟨⟨by rw [ho]; exact h.a.opened, bpOpen_tmp bp q sA sA' a e (fun b hb => (h.a.opened b hb).2) h.a.tmp,
-          bpOpen_fence bp q sA sA' a e h.a.fence, by rw [hn2]; exact h.a.u, by rw [hn2]; exact h.a.nk, by rw [ho, hn2]; exact h.a.pk⟩,
+          bpOpen_fence bp q sA sA' a e h.a.fence, by rw [hn2]; exact h.a.u, by rw [hn2]; exact h.a.nk, by rw [ho, hn2]; exact h.a.pk,
+          by rw [hn2]; exact h.a.rg⟩,
           fr.req _ _ _ _ _ e, fr.nonePos _ _ _ _ _ e,
           (fun _ => ⟨(fun hbp => by subst hbp; cases hnl), (fun hbp _ => by subst hbp; cases hnl)⟩),
           (fun id hid => by rw [hn1] at hid; cases hid),
           KGn.of_eq hn2, ho, (fun hne => absurd hn1 hne)⟩
-    refine S2.bind hopen (fun a b sA2 sB2 hq => ?_)
-    obtain ⟨⟨⟨hst, hnode⟩, p', _, h2⟩, ha2, hreq, hnp, hopens, hnrall, hkgo, hopo, hsomeal⟩ := hq
-    have hd2 : DR src al k ls p' sA2 sB2 := ⟨h2, ha2⟩
+      · obtain ⟨hbs, _, hnob⟩ := hst
+        subst hbs
+        refine S2.andL (setextOpen_sim src k ls p q sA sB h.s) (fun a sA' e => ?_)
+        obtain ⟨hn1, hn2⟩ := ot.sdecl hnob k ls p q sA sB a sA' h.s e
+        have ho := bpOpen_opened _ _ _ _ _ e
+        refine ⟨⟨by rw [ho]; exact h.a.opened, bpOpen_tmp .setext q sA sA' a e (fun b hb => (h.a.opened b hb).2) h.a.tmp,
+          bpOpen_fence .setext q sA sA' a e h.a.fence, by rw [hn2]; exact h.a.u, by rw [hn2]; exact h.a.nk, by rw [ho, hn2]; exact h.a.pk,
+          by rw [hn2]; exact h.a.rg⟩,
+          fr.req _ _ _ _ _ e, fr.nonePos _ _ _ _ _ e,
+          (fun _ => ⟨(fun hbp => by cases hbp), (fun hbp _ => by cases hbp)⟩),
+          (fun id hid => by rw [hn1] at hid; cases hid),
+          KGn.of_eq hn2, ho, (fun hne => absurd hn1 hne)⟩
+    refine S2.bind (S2.andL (S2.withFE h.s h.f hopen
+        (fun _ _ _ e => ⟨bpn_of_bpOpen bp q e, chn_of_bpOpen bp q e⟩) (fun _ _ _ e => bpn_of_bpOpen bp (q + 1) e))
+      (F := fun a sA' => (QE q sA → QE q sA') ∧ (∀ id, a.1 = some id → Unref id sA'.nodes ∧ sA.nodes.length ≤ id))
+      (fun a sA' e => ⟨fun hqe => qe_bpOpen q bp q sA a sA' hqe e,
+        fun id hid => ⟨unref_bpOpen bp q h.a.rg e id hid, bpOpen_new_id e hid⟩⟩)) (fun a b sA2 sB2 hq' => ?_)
+    obtain ⟨⟨⟨⟨⟨hst, hnode⟩, p', _, h2⟩, ha2, hreq, hnp, hopens, hnrall, hkgo, hopo, hsomeal⟩, hf2⟩, hqe2, hunall⟩ := hq'
+    have hd2 : DR src al k ls p' sA2 sB2 := ⟨h2, ha2, hf2⟩
+    have hq2 : q < sA2.nodes.length := Nat.lt_of_lt_of_le hq hkgo.1
+    have hbq2 : al .setext = false → (bB = bA ∨ q = 0 ∨ QE q sA2) :=
+      fun hns => (hbq hns).imp id (Or.imp id hqe2)
     obtain ⟨nodeA, stA⟩ := a
     obtain ⟨nodeB, stB⟩ := b
-    simp only at hst hnode hreq hnp hopens hnrall hsomeal ⊢
+    simp only at hst hnode hreq hnp hopens hnrall hsomeal hunall ⊢
     subst hst
     rcases hnode with ⟨e1, e2⟩ | ⟨n, hn0, e1, e2⟩
     · subst e1 e2
@@ -657,8 +794,9 @@ theorem tryParsers_sim {src al} (ps : PS src al) (fr : Frames al) (ot : OT src) 
         obtain ⟨e1, e2⟩ := hcl hc hr
         rw [hopo]
         exact ⟨hlA, fun x hx => e2 x (by rw [e1, ← hlA]; exact hx)⟩
-      refine S2.mono (ih' result resultB lA lB hd2 (.inr hl') hres hcl2)
-        (fun _ _ _ _ hh => ⟨hh.1, hh.2.1, hh.2.2.1, ⟨hh.2.2.2.1.1, ?_⟩, hh.2.2.2.2⟩)
+      refine S2.mono (ih' result resultB lA lB hd2 (.inr hl') hres hcl2 hq2 hbq2)
+        (fun _ _ _ _ hh => ⟨hh.1, hh.2.1, hh.2.2.1, ⟨hh.2.2.2.1.1, ?_⟩, hh.2.2.2.2.1, hh.2.2.2.2.2.1,
+          Nat.le_trans hkgo.1 hh.2.2.2.2.2.2⟩)
       intro hc hr hnb h1 h2'
       obtain ⟨ho1, ho2⟩ := hopens hnb
       refine hh.2.2.2.1.2 hc hr hnb (fun hw => ?_) (fun hw => ?_)
@@ -676,6 +814,8 @@ theorem tryParsers_sim {src al} (ps : PS src al) (fr : Frames al) (ot : OT src) 
       have hfin : ∀ r : OpenResult, r = .newBlocksOpened → TPU src ls p cont w (bp :: bps) result r :=
         fun r hr => ⟨.inr hr, fun _ _ _ _ _ => hr⟩
       have hnew2 : NRn bp n sA2.nodes := hnrall n rfl
+      obtain ⟨hun2, hge2⟩ := hunall n rfl
+      have hqn : q ≠ n := by omega
       by_cases hrq : stB.requirePara = true
       · rw [if_pos hrq, if_pos hrq]
         have hsome := hreq hrq
@@ -696,11 +836,20 @@ theorem tryParsers_sim {src al} (ps : PS src al) (fr : Frames al) (ot : OT src) 
         by_cases hc : (Option.map (fun x => x.node) (some x) == na.children.getLast?) = true
         · rw [if_pos hc, if_pos hc]
           simp only [shB]
-          refine S2.bind (S2.andL (ps.close x.bp halx k ls p' x.node sA2 sB2 h2 hx0 ha2
-              (fun hbp => (h.a.pk.kg hkgo).nr (List.mem_of_getLast? (hlA ▸ rfl)) hbp))
-            (F := fun _ sA' => AInv al sA'.pc sA'.nodes ∧ KGn sA2.nodes sA'.nodes)
-            (fun _ sA' e => ⟨fr.close _ _ _ _ _ e halx hx0 ha2, fr.closeKG _ _ _ _ _ e halx⟩)) (fun _ _ sA4 sB4 hq => ?_)
-          obtain ⟨h4, ha4, hkg4⟩ := hq
+          have hnex : al .setext = false → x.bp ≠ .setext := fun hns e => by rw [e, hns] at halx; cases halx
+          refine S2.bind (S2.withFE h2 hf2 (S2.andL (ps.close x.bp halx k ls p' x.node sA2 sB2 h2 hx0 ha2
+              (fun hbp => (h.a.pk.kg hkgo).nr (List.mem_of_getLast? (hlA ▸ rfl)) hbp) hf2)
+            (F := fun _ sA' => AInv al sA'.pc sA'.nodes ∧ KGn sA2.nodes sA'.nodes ∧ Unref n sA'.nodes ∧
+              (al .setext = false → QE q sA2 → QE q sA'))
+            (fun _ sA' e => ⟨fr.close _ _ _ _ _ e halx hx0 ha2, fr.closeKG _ _ _ _ _ e halx,
+              unref_bpClose x.bp x.node n ha2.rg hun2 e,
+              fun hns hqe => qe_bpClose q x.bp (hnex hns) x.node sA2 _ sA' hqe e⟩))
+            (fun hns _ _ e => ⟨bpn_of_bpClose _ (hnex hns) _ e, chn_of_bpClose _ (hnex hns) _ e⟩)
+            (fun hns _ _ e => bpn_of_bpClose _ (hnex hns) _ e)) (fun _ _ sA4 sB4 hq' => ?_)
+          obtain ⟨⟨h4, ha4, hkg4, hun4, hqe4⟩, hf4⟩ := hq'
+          have hq4 : q < sA4.nodes.length := Nat.lt_of_lt_of_le hq2 hkg4.1
+          have hbq4 : al .setext = false → (bB = bA ∨ q = 0 ∨ QE q sA4) :=
+            fun hns => (hbq2 hns).imp id (Or.imp id (hqe4 hns))
           refine S2.bind (getPc_s2 h4) (fun pa pb sA5 sB5 hq => ?_)
           obtain ⟨ea, eb, hcr, e1, e2⟩ := hq
           subst ea eb
@@ -715,15 +864,18 @@ theorem tryParsers_sim {src al} (ps : PS src al) (fr : Frames al) (ot : OT src) 
             simp only [Bool.false_eq_true, if_false]
             have hne : sA4.pc.opened ≠ [] := by
               intro e; apply hlen; rw [e]; rfl
-            exact S2.mono (tpReqJp_sim ps fr ⟨h4, ha4⟩ bA bB hbf q n hn0 bp hal stB hl' sA4.pc.opened hne ha4.opened x hx0
-                (hnew2.kg hkg4) ha4.pk)
-              (fun _ _ _ _ hh => ⟨hh.1.1, fun _ => by rw [hh.1.2.1, hh.1.2.2], ⟨p', hh.2⟩, hfin _ hh.1.2.1, HC.of_new hh.1.2.1⟩)
+            exact S2.mono (tpReqJp_sim ps fr ⟨h4, ha4, hf4⟩ bA bB hbf q n hn0 bp hal stB hl' sA4.pc.opened hne ha4.opened x hx0
+                (hnew2.kg hkg4) ha4.pk hq4 hun4 hqn hbq4)
+              (fun _ _ _ _ hh => ⟨hh.1.1, fun _ => by rw [hh.1.2.1, hh.1.2.2], ⟨p', hh.2.1⟩, hfin _ hh.1.2.1, HC.of_new hh.1.2.1,
+                hh.2.2.1, Nat.le_trans hkgo.1 (Nat.le_trans hkg4.1 hh.2.2.2)⟩)
         · rw [if_neg hc, if_neg hc]
-          exact S2.mono (tpTail1_sim ps fr hd2 bA bB hbf q n hn0 bp hal stB hl' hnew2)
-            (fun _ _ _ _ hh => ⟨hh.1.1, fun _ => by rw [hh.1.2.1, hh.1.2.2], ⟨p', hh.2⟩, hfin _ hh.1.2.1, HC.of_new hh.1.2.1⟩)
+          exact S2.mono (tpTail1_sim ps fr hd2 bA bB hbf q n hn0 bp hal stB hl' hnew2 hq2 hun2 hqn hbq2)
+            (fun _ _ _ _ hh => ⟨hh.1.1, fun _ => by rw [hh.1.2.1, hh.1.2.2], ⟨p', hh.2.1⟩, hfin _ hh.1.2.1, HC.of_new hh.1.2.1,
+              hh.2.2.1, Nat.le_trans hkgo.1 hh.2.2.2⟩)
       · rw [if_neg hrq, if_neg hrq]
-        exact S2.mono (tpTail1_sim ps fr hd2 bA bB hbf q n hn0 bp hal stB hl' hnew2)
-          (fun _ _ _ _ hh => ⟨hh.1.1, fun _ => by rw [hh.1.2.1, hh.1.2.2], ⟨p', hh.2⟩, hfin _ hh.1.2.1, HC.of_new hh.1.2.1⟩)
+        exact S2.mono (tpTail1_sim ps fr hd2 bA bB hbf q n hn0 bp hal stB hl' hnew2 hq2 hun2 hqn hbq2)
+          (fun _ _ _ _ hh => ⟨hh.1.1, fun _ => by rw [hh.1.2.1, hh.1.2.2], ⟨p', hh.2.1⟩, hfin _ hh.1.2.1, HC.of_new hh.1.2.1,
+            hh.2.2.1, Nat.le_trans hkgo.1 hh.2.2.2⟩)
 
 /-! ### the relation with `BlockOffset` / `BlockIndent` left open (they are rewritten by every retry of openBlocks
     before anything reads them) -/
@@ -743,9 +895,10 @@ structure DRL (src : Bytes) (al : BP → Bool) (k ls p : Nat) (sA sB : St) : Pro
   n : StoreRel src sA.nodes sB.nodes
   c : CtxRelL sA.pc sB.pc
   a : AInv al sA.pc sA.nodes
+  f : FEc al sA.nodes sB.nodes
 
 theorem DR.loose {src al k ls p sA sB} (h : DR src al k ls p sA sB) : DRL src al k ls p sA sB :=
-  ⟨h.s.r, h.s.n, h.s.c.loose, h.a⟩
+  ⟨h.s.r, h.s.n, h.s.c.loose, h.a, h.f⟩
 
 theorem CtxRelL.last {a b : Ctx} (h : CtxRelL a b) : LastRel a.opened.getLast? b.opened.getLast? := by
   rw [h.opened]
@@ -764,7 +917,7 @@ theorem peekLine_l {src al k ls p} {sA sB : St} (h : DRL src al k ls p sA sB) :
   obtain ⟨rB, h3, h4⟩ := ri_peekLine h.r.b
   unfold GM.Blocks.peekLine
   rw [h1, h3, view_A h.r.inl, view_B h.r.inl, seg_A h.r.inl, seg_B h.r.inl]
-  exact S2.ok ⟨rfl, rfl, ⟨⟨h.r.tf, h.r.inl, h2, h4⟩, h.n, h.c, h.a⟩⟩
+  exact S2.ok ⟨rfl, rfl, ⟨⟨h.r.tf, h.r.inl, h2, h4⟩, h.n, h.c, h.a, h.f⟩⟩
 
 theorem lineOffset_l {src al k ls p} {sA sB : St} (h : DRL src al k ls p sA sB) :
     S2 (fun a b sA' sB' => (p < src.length → a = (p : Int) - ls ∧ b = (p : Int) - ls + 2) ∧
@@ -773,7 +926,7 @@ theorem lineOffset_l {src al k ls p} {sA sB : St} (h : DRL src al k ls p sA sB) 
   obtain ⟨vB, rB, h3, h4, h4'⟩ := ri_lineOffset h.r.b
   unfold GM.Blocks.lineOffset
   rw [h1, h3]
-  refine S2.ok ⟨fun hp => ?_, ⟨⟨h.r.tf, h.r.inl, h2, h4⟩, h.n, h.c, h.a⟩⟩
+  refine S2.ok ⟨fun hp => ?_, ⟨⟨h.r.tf, h.r.inl, h2, h4⟩, h.n, h.c, h.a, h.f⟩⟩
   have hq : p + 2 * (k + 1) < (quotePrefix src).length := by
     have := qp_length_ge h.r.inl.line
     have := h.r.inl.lt_iff.mp hp
@@ -786,7 +939,7 @@ theorem modPc_l {src al k ls p} {sA sB : St} (h : DRL src al k ls p sA sB) (fA f
     (hf : ∀ a b, CtxRelL a b → CtxRel (fA a) (fB b)) (hk : ∀ a n, AInv al a n → AInv al (fA a) n) :
     S2 (fun _ _ sA' sB' => DR src al k ls p sA' sB') (modPc fA sA) (modPc fB sB) := by
   unfold modPc
-  exact S2.ok ⟨⟨h.r, h.n, hf _ _ h.c⟩, hk _ _ h.a⟩
+  exact S2.ok ⟨⟨h.r, h.n, hf _ _ h.c⟩, hk _ _ h.a, h.f⟩
 
 /-! ### toContinuable -/
 
@@ -820,14 +973,16 @@ theorem toContinuable_sim {src al} (fr : Frames al) (cont : Bool)
       have hbp : x.bp = .paragraph := (hcl hcont hrno).2 x rfl
       simp only [shB]
       rw [hbp]
-      refine S2.bind (S2.andL (paragraphContinue_sim src k ls p x.node sA sB h.s)
+      refine S2.bind (S2.withFE h.s h.f (S2.andL (paragraphContinue_sim src k ls p x.node sA sB h.s)
         (F := fun _ sA' => AInv al sA'.pc sA'.nodes)
-        (fun _ sA' e => fr.cont .paragraph x.node sA _ sA' e (hbp ▸ hal) hx0 h.a)) (fun a b sA1 sB1 hq => ?_)
-      obtain ⟨⟨hab, p', _, h1⟩, ha1⟩ := hq
+        (fun _ sA' e => fr.cont .paragraph x.node sA _ sA' e (hbp ▸ hal) hx0 h.a))
+        (fun _ _ _ e => ⟨bpn_of_bpContinue .paragraph x.node e, chn_of_bpContinue .paragraph x.node e⟩)
+        (fun _ _ _ e => bpn_of_bpContinue .paragraph (x.node + 1) e)) (fun a b sA1 sB1 hq => ?_)
+      obtain ⟨⟨⟨hab, p', _, h1⟩, ha1⟩, hf1⟩ := hq
       rw [hab]
       by_cases hcc : a.cont = true
-      · rw [if_pos hcc, if_pos hcc]; exact S2.pure ⟨.inl rfl, fun _ => rfl, p', h1, ha1⟩
-      · rw [if_neg hcc, if_neg hcc]; exact S2.pure ⟨.inl hreq, fun e => e, p', h1, ha1⟩
+      · rw [if_pos hcc, if_pos hcc]; exact S2.pure ⟨.inl rfl, fun _ => rfl, p', h1, ha1, hf1⟩
+      · rw [if_neg hcc, if_neg hcc]; exact S2.pure ⟨.inl hreq, fun e => e, p', h1, ha1, hf1⟩
   · rw [if_neg hc, if_neg hc]
     exact S2.pure ⟨hres, fun e => e, p, h⟩
 
